@@ -227,6 +227,26 @@ CHECKS.update({
         design='7/C14', technique='Coq proof (region lemmas; finite word family lifted by case invariance; prefix-abstract matcher) + lex correspondence + oracle'),
 })
 
+CHECKS.update({
+    'C15': dict(
+        text='Partial by nature: the logic half is proved, the interpreter half is observed. LOGIC (Coq, over the call graph REGENERATED '
+             'from every file of /repo/sqlparse on every run): a budget model of the pipeline (frames available = recursion limit) with '
+             'C15_guard (for every text, option set and limit that leaves room to enter the entry point, parse/split/format never return '
+             'RecursionError: the outcome is the unbudgeted result, SQLParseError, or an error the unbudgeted model has too), '
+             'C15_ok_is_unbudgeted, C15_success_keeps_guarantees (C02 round trip and C03 invariants hold for every successful result '
+             'under any limit), C15_monotone, C15_enough_frames, C15_split_outside, C15_str_budget/_flatten_budget, and the obligation '
+             'C15_callgraph_ok (vm_compute over the regenerated graph: every site from which a depth-recursive function is reachable is '
+             'inside the try/except RecursionError of FilterStack.run or only sees depth-1 statements / caller options; guard shape; no '
+             'lazily stored generators; only parse/parsestream return deep trees; no persistent state published before it is complete). '
+             'INTERPRETER half (not expressible in the model: CPython frame accounting, C stack, MemoryError): a subprocess matrix, one '
+             'fresh interpreter per cell: construct x depth x recursion limit x entry point x option set, head-room probes (h frames left, '
+             'first or later call of the process), limit scan; each cell checks the outcome class, the round trip/parent pointers of a '
+             'successful result and that a later ordinary call in the same process still works.',
+        note='Partial: per-pass frame cost is an abstraction (max depth + c), not derived from the code; interpreter behaviour by exploration. '
+             'Limits stated with witnesses: no frames left to enter the entry point; str() applied by the caller to a returned deep tree.',
+        design='7/C15', technique='Coq proof (guard/budget model + obligation over the regenerated call graph) + subprocess matrix observation'),
+})
+
 NOT_YET = {}
 
 
